@@ -118,3 +118,12 @@ def register(app: Any, func: Callable, triggers: Any = None, **options: Any) -> 
     if triggers:
         app._store_deferred_trigger(t, triggers)
     return t
+
+
+def reset_thread_context() -> None:
+    """pynenc keeps the current app / runner context / invocation in a
+    thread-local; on the controller thread that state would leak from one
+    simulated run into the next (and into its digest)."""
+    from pynenc import context
+
+    context.thread_local.__dict__.clear()
